@@ -153,4 +153,7 @@ def check(ctx):
     hello_payload_extraction(ctx, repo, rule="R6")
     text_parts(ctx, repo)
     ctx.note("NOT decided: return times relative to the configured waits (clock).")
-    ctx.assume("replies are delivered to _async_on_discovered one at a time (consume loop, cooperative scheduling)")
+    ctx.rule("R7", "each reply is reported individually: the consume loop pairs every handled datagram with its own handled-callback (the locator reads the handler's single-slot identifier/name there)")
+    from .c05 import consume_pairing
+    consume_pairing(ctx, repo, "R7")
+    ctx.assume("asyncio runs one callback at a time (cooperative scheduling)")
